@@ -1,6 +1,6 @@
 (** C27 — Invalid blocks are rejected without side effects or poisoning. *)
 From Coq Require Import List ZArith NArith Bool.
-From C33 Require Import C27.Model C27.Proofs C27.ProofsRefute C27.Proofs2 C27.Proofs3 C27.Proofs4 C27.ProofsExamples.
+From C33 Require Import C27.Model C27.Proofs C27.ProofsRefute C27.Proofs2 C27.Proofs3 C27.Proofs4 C27.ProofsExamples C27.ProofsHdr.
 Import ListNotations.
 Open Scope Z_scope.
 
@@ -103,14 +103,56 @@ Theorem C27_orphan_siblings_connected :
 Proof. exact orphan_history_invisible. Qed.
 Print Assumptions C27_orphan_siblings_connected.
 
-(** ProcessBlock never panics, from any state (the nil-fork guard in
-    connectBestChain: a block whose parent links no longer lead to the best
-    chain is refused). *)
-Theorem C27_no_panic :
+(** "ProcessBlock never panics" fails at full strength: a block with an empty
+    ParentHash makes blockExists read the header table with the empty prefix,
+    and blocktable.go getHeaderByIndex panics as soon as the table has two
+    rows (finding 5) ... *)
+Theorem C27_no_panic_refuted : ~ C27_no_panic_full.
+Proof. exact no_panic_refuted. Qed.
+Print Assumptions C27_no_panic_refuted.
+
+(** ... and holds from any state for every block that names a parent - the
+    all-zero hash and Height 0 included (the nil-fork guard in connectBestChain:
+    a block whose parent links no longer lead to the best chain is refused). *)
+Theorem C27_no_panic_partial :
   forall (verr : N -> N -> N) (fin : Z) (s : vstate) (i : item),
-    snd (snd (vdeliver verr fin s i)) <> VPanic.
-Proof. exact no_panic. Qed.
-Print Assumptions C27_no_panic.
+    names_parent i = true ->
+    snd (snd (vdeliver0 verr fin s i)) <> VPanic.
+Proof. exact no_panic_partial. Qed.
+Print Assumptions C27_no_panic_partial.
+
+Theorem C27_no_panic_nonvacuous :
+  names_parent (mkI (mkB 2 1 2 1) 0 PBcast) = true
+  /\ names_parent (mkI (mkB 2 zero_par 0 1) 0 PBcast) = true
+  /\ names_parent hp_item = false
+  /\ snd (vdeliver0 (fun _ _ => 0%N) 0 (vrun0 (fun _ _ => 0%N) 0 hp_root hp_hist) (mkI (mkB 2 1 2 1) 0 PBcast))
+     = (true, false, VNone)
+  /\ snd (vdeliver0 (fun _ _ => 0%N) 0 (vrun0 (fun _ _ => 0%N) 0 hp_root hp_hist) (mkI (mkB 2 zero_par 0 1) 0 PBcast))
+     = (false, false, VTd)
+  /\ snd (vdeliver0 (fun _ _ => 0%N) 0 (vinit hp_root) hp_item) = (false, true, VNone).
+Proof. exact no_panic_nonvacuous. Qed.
+Print Assumptions C27_no_panic_nonvacuous.
+
+(** The complete model of ProcessBlock ([vdeliver0]: empty / all-zero
+    ParentHash, Height 0) is [vdeliver] - the function the history theorems
+    above speak about - on every header with a named non-zero parent and a
+    height above 0 ... *)
+Theorem C27_plain_header_same :
+  forall (verr : N -> N -> N) (fin : Z),
+    (forall s i, plain_hdr i = true -> vdeliver0 verr fin s i = vdeliver verr fin s i)
+    /\ (forall g hist, forallb plain_hdr hist = true -> vrun0 verr fin g hist = vrun verr fin g hist).
+Proof. exact plain_header_same. Qed.
+Print Assumptions C27_plain_header_same.
+
+(** ... and a block with any other header leaves the best chain where it was
+    (no index node has the empty hash). *)
+Theorem C27_odd_header_chain_unchanged :
+  forall (verr : N -> N -> N) (fin : Z) (s : vstate) (i : item),
+    plain_hdr i = false ->
+    in_vidx empty_par (vidx s) = false ->
+    vmain (vstep0 verr fin s i) = vmain s.
+Proof. exact odd_header_chain_unchanged. Qed.
+Print Assumptions C27_odd_header_chain_unchanged.
 
 (** the history that used to panic: the descendant 24 of the block deleted
     from the index is refused, the tip stays *)
@@ -140,3 +182,59 @@ Theorem C27_valid_refines_nonvacuous :
   /\ hconsb (o_root :: map iblk [mkI (mkB 1 0 1 1) 0 PBcast; mkI (mkB 2 1 3 1) 0 PBcast]) = false.
 Proof. exact refines_nonvacuous. Qed.
 Print Assumptions C27_valid_refines_nonvacuous.
+
+(** ---- the signature stage of util.PreExecBlock and the receiver's mempool ---- *)
+
+(** "The stage accepts exactly the blocks whose signatures all verify" fails at
+    full strength: a transaction whose hash the mempool holds is not verified
+    (finding 6) ... *)
+Theorem C27_sig_pool_refuted : ~ C27_sig_pool_full.
+Proof. exact sig_pool_refuted. Qed.
+Print Assumptions C27_sig_pool_refuted.
+
+(** ... holds for every mempool when the pooled transactions of the block
+    carry signatures that verify ... *)
+Theorem C27_sig_pool_partial :
+  forall (pool : list N) (v : sigview),
+    pooled_ok pool v = true -> sig_stage pool v = sig_valid v.
+Proof. exact sig_pool_partial. Qed.
+Print Assumptions C27_sig_pool_partial.
+
+(** ... and, unguarded: a block signature that does not verify is refused
+    whatever the mempool holds - all of the block's transactions, some, none,
+    or the block has none - and so is a transaction signature that does not
+    verify unless that transaction's hash is pooled. *)
+Theorem C27_block_signature_any_pool :
+  (forall (pool : list N) (v : sigview), sv_bsig v = false -> sig_stage pool v = false)
+  /\ (forall (pool : list N) (v : sigview) (t : N * bool),
+        In t (sv_txs v) -> snd t = false -> memN (fst t) pool = false -> sig_stage pool v = false).
+Proof. exact block_signature_any_pool_both. Qed.
+Print Assumptions C27_block_signature_any_pool.
+
+Theorem C27_sig_pool_nonvacuous :
+  pooled_ok [0; 2; 9]%N (mkSV false [(0, true); (1, true); (2, true)]%N) = true
+  /\ sig_stage [0; 1; 2]%N (mkSV false [(0, true); (1, true); (2, true)]%N) = false
+  /\ pooled_ok [0; 2]%N (mkSV true [(0, true); (1, false); (2, true)]%N) = true
+  /\ sig_stage [0; 2]%N (mkSV true [(0, true); (1, false); (2, true)]%N) = false
+  /\ sig_stage [0; 1; 2]%N (mkSV true [(0, true); (1, true); (2, true)]%N) = true
+  /\ pooled_ok [1]%N (mkSV true [(0, true); (1, false); (2, true)]%N) = false.
+Proof. exact sig_pool_nonvacuous. Qed.
+Print Assumptions C27_sig_pool_nonvacuous.
+
+(** The validity oracle of the histories, split into the signature stage
+    ([view]: what the stage looks at) and the class [after] of the first
+    failing later check, at a receiver whose mempool holds [pool]: as long as
+    the pooled transactions of the blocks carry good signatures the class of
+    every (hash, body) pair - and with it every run of the model - is the one
+    at a receiver with an empty mempool, which is what the harness computes;
+    a block signature that does not verify gives class 1 at every receiver. *)
+Theorem C27_validity_independent_of_pool :
+  forall (view : N -> N -> sigview) (after : N -> N -> N) (pool : list N),
+    ((forall h b, pooled_ok pool (view h b) = true) ->
+     (forall h b, verr_at view after pool h b = verr_at view after [] h b)
+     /\ (forall fin g hist,
+           vrun0 (verr_at view after pool) fin g hist = vrun0 (verr_at view after []) fin g hist
+           /\ vrun (verr_at view after pool) fin g hist = vrun (verr_at view after []) fin g hist))
+    /\ (forall h b, sv_bsig (view h b) = false -> verr_at view after pool h b = 1%N).
+Proof. exact validity_independent_of_pool_both. Qed.
+Print Assumptions C27_validity_independent_of_pool.
